@@ -25,8 +25,8 @@ PROP = dict(
         H(NP, "c34", "c34_server", "server answer = exactly filter[offset..offset+len] or None", timeout=400),
         H(NP, "c34", "c34_req_new", "ReferenceIdRequest::new validates alignment and range"),
         H(NP, "c34", "c34_req_new_kf_u16_wrap", "EXPECTED TO FAIL: len+offset > 65535 wraps (release) / panics (dev) in ReferenceIdRequest::new", tier="thorough"),
-        H(NP, "c34", "c34_member_add", "add_id then contains_id; exactly the ten bits set", timeout=400),
-        H(NP, "c34", "c34_member_def", "contains_id == all ten bits set; empty filter has no members", timeout=400),
+        H(NP, "c34", "c34_member_add", "add_id then contains_id; exactly the ten bits set", tier="thorough"),
+        H(NP, "c34", "c34_member_def", "contains_id == all ten bits set; empty filter has no members", tier="thorough"),
         H(NP, "c34", "c34_member_merge", "member survives add(other); add is bytewise OR", tier="thorough"),
         H(NP, "c34", "c34_member_union", "member survives union; union is bytewise OR", tier="thorough"),
     ],
